@@ -23,6 +23,7 @@ type ExecOptions struct {
 	KeepSwitches bool
 	KeepResults  bool
 	Parallel     bool // real goroutines instead of the simulator (cross-check, not simulation)
+	Lifetimes    bool // the tree uses finalizers / cleanups / weak / unique: drain them at run boundaries
 }
 
 type raceLogReader struct {
@@ -245,7 +246,11 @@ func Execute(c *Case, opt ExecOptions) (rr RunResult) {
 	if rr.RaceCount > 0 {
 		rr.RaceText = raceLog.readNew()
 	}
-	runtime.GC()
+	if opt.Lifetimes {
+		simrt.DrainFinalizers()
+	} else {
+		runtime.GC()
+	}
 	rr.WallNs = time.Since(t0).Nanoseconds()
 	return rr
 }
